@@ -5,7 +5,7 @@ from report import Rule
 from mirlib import callee_name, callee_of, op_const, op_place
 import mustlib as M
 from astlib import find_all, find_first, show, show_pat, quotes_in, tok_text, tok_interps
-from rules.common import flat, flatp, has, same
+from rules.common import flat, flatp, has, same, xquotes
 
 EXPLANATION = (
     "Static analysis; nothing executed. Decided structural clauses: (R1) cache-key soundness, on MIR: in each of the 7 "
@@ -452,7 +452,7 @@ def r3_tables(ctx):
             arms = []
             m = find_first(fn.body, "Match") if fn else None
             for a in (m or {"arms": []})["arms"]:
-                qs = quotes_in(a["body"])
+                qs = xquotes(a["body"])
                 arms.append((show_pat(a["pat"]).split("::")[-1], flat(tok_text(qs[0]["tokens"])) if qs else ""))
         if not ok_from:
             r.viol("R3:%s#macro-from" % en, "parser -> macro conversion does not list exactly %s" % variants, file=MF)
@@ -486,7 +486,7 @@ def r3_tables(ctx):
     else:
         r.viol("R3:CurrencyCode#from_args", "currency_code lookup changed: `%s`" % t, file=PF)
     fn = ast.fn(MF, "to_token_stream", impl_self="CurrencyCode")
-    qs = [flat(tok_text(q["tokens"])) for q in quotes_in(fn.body)] if fn else []
+    qs = [flat(tok_text(q["tokens"])) for q in xquotes(fn.body)] if fn else []
     if qs == ["l_i18n_crate::reexports::icu::currency::formatter::CurrencyCode(l_i18n_crate::reexports::tinystr!(3,#code))"] and has(flatp(show(fn.body)), "letcode=Literal::stringself.0.as_str;"):
         r.inst("CurrencyCode -> tokens", "the code itself")
     else:
@@ -662,7 +662,7 @@ def _r3_codegen(r, ctx):
             if not mm:
                 continue
             v, binds = mm.group(1), [x for x in mm.group(2).split(",") if x]
-            qs = quotes_in(a["body"])
+            qs = xquotes(a["body"])
             txt = flat(tok_text(qs[0]["tokens"])) if len(qs) == 1 else ""
             interps = tok_interps(qs[0]["tokens"]) if len(qs) == 1 else []
             want_fn = "l_i18n_crate::__private::format_%s_%s" % (FAMILY.get(v), suffix)
